@@ -124,6 +124,21 @@ def check_writers(sh, fa, case, d, conf, dtn, rng):
         if st == "exc" or not RC.same(got, expected):
             sh.violation("accepted-datum-does-not-roundtrip", "read back %s, expected %s" % (exc_name(got) if st == "exc" else printable(got, 200), printable(expected, 200)), info)
             return
+        if "record_branches_by_reference" in case.get("features", ()):
+            # the whole datum comes back only from the branch it shares most fields with: the
+            # bytes must select the branch the statement's rule (C09) gives
+            from .c09 import canon_decimals
+            want = []
+            for loose in (False, True):
+                try:
+                    want.append(canon_decimals(node, RB.strip_spans(RC.from_datum(node, d, not dtn, loose))))
+                except Exception:
+                    pass
+            if want and not any(RC.same(canon_decimals(node, RB.strip_spans(tree)), w) for w in want):
+                sh.violation("accepted-datum-does-not-roundtrip", "filed under a branch that drops part of it: read back %s from a datum %s"
+                             % (printable(got, 200), printable(d, 200)), info)
+                return
+            sh.count("by_reference_branch_choice_checked")
         if rng.random() < 0.3:
             fo = io.BytesIO()
             st, err = guard(fa.writer, fo, case.setdefault("shared_schema", copy.deepcopy(js)), [d, d], validator=True, disable_tuple_notation=dtn, codec=rng.choice(["null", "deflate"]))
@@ -265,6 +280,31 @@ def one_case(sh, fa, V, rng, case, may_mutate=True):
             sh.count("validate_many_checked")
 
 
+def ref_records_case(rng):
+    """A union of record branches given BY NAME (the records are defined in earlier fields) whose
+    field sets are subsets of one another or all optional: a datum meant for a later branch also
+    passes validation against an earlier one (extra keys are ignored), so validate accepts it and
+    the writers must file it under the branch it shares most fields with and give it back whole."""
+    pool = ["x", "y", "z", "w"]
+    k = rng.randint(2, 4)
+    recs, names = [], []
+    for i in range(k):
+        nm = "Ref%d" % i
+        fs = rng.sample(pool, rng.randint(1, 4))
+        optional = rng.random() < 0.4
+        recs.append({"type": "record", "name": nm, "fields": [
+            {"name": f, "type": ["null", "int"], "default": None} if optional else {"name": f, "type": "int"} for f in fs]})
+        names.append((nm, fs, optional))
+    order = list(range(k))
+    rng.shuffle(order)
+    tgt = rng.randrange(k)
+    d = {f: rng.randint(-9, 9) for f in names[tgt][1]}
+    js = {"type": "record", "name": "Holder", "fields":
+          [{"name": "def%d" % i, "type": ["null", r], "default": None} for i, r in enumerate(recs)]
+          + [{"name": "u", "type": rng.choice([[], ["null"], ["string"]]) + [names[i][0] for i in order]}]}
+    return js, {"u": d}, {"record_branches_by_reference"}
+
+
 def run_shard(spec):
     import fastavro as fa
     from fastavro.validation import ValidationError as V
@@ -298,7 +338,13 @@ def run_shard(spec):
     while i < spec["n"] and not sh.out_of_time():
         i += 1
         logical = rng.random() < 0.5
-        case = gen_case(rng, dict(bytes_defaults=0.15, logical=logical, union_default_any=True), dict(hints=0.2, size_budget=60, big=0.005, omit_nullable=0.15))
+        if rng.random() < 0.06:
+            js, d, feats = ref_records_case(rng)
+            node, env = RS.build(js)
+            case = {"schema": js, "node": node, "env": env, "datum": d, "features": set(feats)}
+            sh.count("record_branches_by_reference")
+        else:
+            case = gen_case(rng, dict(bytes_defaults=0.15, logical=logical, union_default_any=True), dict(hints=0.2, size_budget=60, big=0.005, omit_nullable=0.15))
         sh.feat(case["features"])
         seed = rng.getrandbits(48)
         applies = RC.has_bytes_default(case["node"])
